@@ -247,6 +247,49 @@ def main():
                     if Mlib.shape != Mref.shape or not np.all(np.isfinite(Mlib)) or dev > 1e-11:
                         ctx.violation("mixed_mass_matrix:%s,%s" % (tk, sk), "%s: ||identity - integral of the evaluated bases|| / ||.|| = %.3e (opts %s / %s, order %d)"
                                       % (cid, dev, S.opts_key(optsT), S.opts_key(optsS), order), cid)
+    # ---------------------------------------------------------------- (4) rotated spaces: SNC = nu x RWG and RBC = nu x BC pointwise
+    # nu = geometric element normal, reversed on the domains named in swapped_normals. The mass-matrix oracle above evaluates
+    # both bases through the library, so the orientation the rotated spaces use is decided here against the geometry itself.
+    # One grid stores a domain with reversed orientation (the only grids on which BC/RBC accept a partial swap).
+    rng4 = ctx.rng("rotated")
+    mrev = M.distort(M.refine(M.octahedron(), 1), rng4)
+    mrev.D = np.where((mrev.V[2, mrev.E[0]] + mrev.V[2, mrev.E[1]] + mrev.V[2, mrev.E[2]]) < 0, 2, 1).astype(mrev.D.dtype)
+    mrev = M.flip_orientation(mrev, mrev.D == 2)
+    worst["rotated"] = 0.0
+    for mname, mesh, swaps in [("octa_r1_reversed_domain", mrev, [[2]]), (pool[1][0], pool[1][1], [None, "first"])]:
+        grid = M.to_grid(mesh)
+        bg, bmesh = bary_mesh_of(M, grid)
+        bc_ = np.array([[1 / 3, 0.2, 0.55], [1 / 3, 0.7, 0.15]])
+        Xb = np.hstack([bmesh.V[:, bmesh.E[0, e]][:, None] + np.column_stack([bmesh.V[:, bmesh.E[1, e]] - bmesh.V[:, bmesh.E[0, e]],
+                                                                              bmesh.V[:, bmesh.E[2, e]] - bmesh.V[:, bmesh.E[0, e]]]) @ bc_ for e in range(bmesh.ne)])
+        wb, wc = locate(bmesh, Xb), locate(mesh, Xb)
+        A_ = mesh.V[:, mesh.E[1]] - mesh.V[:, mesh.E[0]]
+        B_ = mesh.V[:, mesh.E[2]] - mesh.V[:, mesh.E[0]]
+        ngeo = np.cross(A_.T, B_.T)
+        ngeo /= np.linalg.norm(ngeo, axis=1)[:, None]
+        for sw in swaps:
+            if sw == "first":
+                sw = [int(sorted(set(mesh.D.tolist()))[0])]
+            for ka, kb in (("RWG", "SNC"), ("BC", "RBC")):
+                cid = "rotated:%s:%s=nu x %s:swapped=%s" % (mname, kb, ka, sw)
+                if not ctx.want(cid) or (ka == "BC" and sw is not None and mesh is not mrev):
+                    continue
+                with ctx.guard(cid, "rotated_space:%s" % kb, allow=S.ALLOWED_REJECTIONS):
+                    opts = {"swapped_normals": list(sw)} if sw else {}
+                    a = S.make_space(api, grid, *KA[ka], **opts)
+                    b = S.make_space(api, grid, *KA[kb], **opts)
+                    on_bary = a.grid.number_of_elements == bmesh.ne and bmesh.ne != mesh.ne
+                    Fa = basis_matrix(a, wb if on_bary else wc).reshape(len(wb), 3, -1)
+                    Fb = basis_matrix(b, wb if on_bary else wc).reshape(len(wb), 3, -1)
+                    nu = np.array([ngeo[int(e)] * (-1.0 if (sw and int(mesh.D[int(e)]) in sw) else 1.0) for e, _ in wc])
+                    want = np.cross(nu[:, :, None], Fa, axisa=1, axisb=1, axisc=1)
+                    dev = float(np.abs(Fb - want).max() / max(np.abs(Fa).max(), 1e-300)) if Fa.shape == Fb.shape else np.inf
+                    worst["rotated"] = max(worst["rotated"], dev if np.isfinite(dev) else 0.0)
+                    ctx.case(cid, {"mesh": mesh.describe(), "pair": [ka, kb], "swapped_normals": sw, "points": len(wb), "max_rel_dev": dev})
+                    if not (dev <= 1e-12):
+                        bad = sorted({int(wb[i][0]) for i in np.flatnonzero(np.abs(Fb - want).max(axis=(1, 2)) > 1e-12 * np.abs(Fa).max())})[:8] if Fa.shape == Fb.shape else None
+                        ctx.violation("rotated_space:%s:not_nu_cross_%s" % (kb, ka), "%s: %s differs from nu x %s by %.3e of max |basis| (swapped_normals=%s; first barycentric elements affected: %s)"
+                                      % (cid, kb, ka, dev, sw, bad), cid)
     ctx.note("worst", worst)
     ctx.note("vertex_valences_seen", sorted(valences))
     partial = ctx.only_case is not None or bool(ctx.args.only)
